@@ -135,6 +135,8 @@ func propC17(c c17Case) *Outcome {
 				method = method + "~" + id
 			case "twice":
 				invoker(ctx, method, req, new(pb.Message), cc, opts...)
+			case "rw-req":
+				req = &pb.Message{Count: req.(*pb.Message).Count + 100}
 			}
 			return invoker(ctx, method, req, reply, cc, opts...)
 		}
@@ -196,16 +198,18 @@ func propC17(c c17Case) *Outcome {
 		bare  bool // the interceptor's own bare context.Canceled must come back as is
 	}
 	finalMethod := method
-	var walk func(i int, method string, nopts int) c17Res
-	walk = func(i int, method string, nopts int) c17Res {
+	var hitCounts []int32
+	var walk func(i int, method string, nopts int, cnt int32) c17Res
+	walk = func(i int, method string, nopts int, cnt int32) c17Res {
 		if i < 0 {
 			baseHits++
 			finalMethod = method
 			if c.Stream {
 				wantBase = append(wantBase, fmt.Sprintf("stream:%s:%d:true:true", method, nopts))
 			} else {
-				wantBase = append(wantBase, fmt.Sprintf("invoke:%s:%d:5", method, nopts))
+				wantBase = append(wantBase, fmt.Sprintf("invoke:%s:%d:%d", method, nopts, cnt))
 			}
+			hitCounts = append(hitCounts, cnt)
 			return c17Res{code: codes.OK, count: 77}
 		}
 		beh := c.Layers[i].Unary
@@ -214,7 +218,7 @@ func propC17(c c17Case) *Outcome {
 			beh, tag = c.Layers[i].Stream, "s"
 		}
 		if beh == "" {
-			return walk(i-1, method, nopts)
+			return walk(i-1, method, nopts, cnt)
 		}
 		id := fmt.Sprintf("L%d", i)
 		wantLog = append(wantLog, fmt.Sprintf("%s:%s:%s:%d:cc=%s", tag, id, method, nopts, ccWant))
@@ -233,11 +237,14 @@ func propC17(c c17Case) *Outcome {
 			method = method + "~" + id
 		case "twice":
 			// e.g. retry, or re-authenticate and repeat: the invoker is used twice, each use is a full call
-			walk(i-1, method, nopts)
+			walk(i-1, method, nopts, cnt)
+		case "rw-req":
+			// the interceptor hands on a request of its own (stamped, redacted) and leaves the caller's alone
+			cnt += 100
 		}
-		return walk(i-1, method, nopts)
+		return walk(i-1, method, nopts, cnt)
 	}
-	res := walk(len(c.Layers)-1, method, c.NOpts)
+	res := walk(len(c.Layers)-1, method, c.NOpts, 5)
 	method = finalMethod
 	reachesBase := baseHits > 0
 	wantBare, wantCode, wantCount := res.bare, res.code, res.count
@@ -300,7 +307,7 @@ func propC17(c c17Case) *Outcome {
 			if c.Stream {
 				want = append(want, "stream:"+kBidi)
 			} else {
-				want = append(want, "unary:5")
+				want = append(want, fmt.Sprintf("unary:%d", hitCounts[i]))
 			}
 		}
 		if !sameStrings(seen, want) {
@@ -346,7 +353,7 @@ func genC17(t *rapid.T) c17Case {
 	c := c17Case{Base: rapid.SampledFrom([]string{"fake", "fake", "inproc", "http", "grpc", "grpc"}).Draw(t, "base"), Stream: rapid.Bool().Draw(t, "stream"), NOpts: rapid.IntRange(0, 2).Draw(t, "nopts")}
 	n := rapid.IntRange(0, 4).Draw(t, "depth")
 	c.DoneCtx = c.Base == "fake" && rapid.IntRange(0, 3).Draw(t, "donectx") == 0
-	ub := []string{"", "pass", "pass", "pass", "sc-err", "sc-ctxerr", "sc-ok", "add-opt", "drop-opts", "rw-method", "twice"}
+	ub := []string{"", "pass", "pass", "pass", "sc-err", "sc-ctxerr", "sc-ok", "add-opt", "drop-opts", "rw-method", "twice", "rw-req"}
 	sb := []string{"", "pass", "pass", "pass", "sc-err", "sc-ctxerr", "add-opt", "drop-opts", "rw-method"}
 	for i := 0; i < n; i++ {
 		c.Layers = append(c.Layers, c17Layer{Unary: rapid.SampledFrom(ub).Draw(t, "u"), Stream: rapid.SampledFrom(sb).Draw(t, "s")})
